@@ -136,6 +136,11 @@ func (s *c17Sim) revise(kind int) {
 			amount = fc.RenterOutput.Value.Div64(uint64(2 + r.rng.IntN(50)))
 		}
 	}
+	if kind == 0 && s.calls%4 == 3 && fc.Capacity < 1<<60 {
+		// a consensus-valid contract need not keep its spare capacity a whole number of sectors
+		fc.Capacity += 1 + uint64(s.calls*7919)%(rhp4.SectorSize-1)
+		r.count("append-unaligned-capacity")
+	}
 	pan, msg := try(func() {
 		switch kind {
 		case 0:
@@ -208,6 +213,9 @@ func (s *c17Sim) revise(kind int) {
 	}
 	if rev.TotalCollateral != old.TotalCollateral {
 		r.violate("c17.revision-total-collateral", "constructor kind %d touches total collateral", kind)
+	}
+	if old.Filesize <= old.Capacity && rev.Filesize > rev.Capacity {
+		r.violate("c17.revision-filesize-capacity", "constructor kind %d yields filesize %d above capacity %d (from %d / %d): consensus rejects the revision", kind, rev.Filesize, rev.Capacity, old.Filesize, old.Capacity)
 	}
 	r.count("oracle-revision-identities")
 	s.fc = rev
